@@ -196,6 +196,8 @@ impl<'a, C> ParseState<'a, C> {
         self.env = ParseState::_build_env(input);
         self.len_env = self.env.len();
         self.head = head;
+        // 清空「中间解析结果」，避免上一次（部分/失败的）解析残留条目影响下一次解析
+        self.mid_result = MidParseResult::new();
     }
 
     /// 重置状态
